@@ -1,70 +1,22 @@
 -------------------------- MODULE Trace_Concurrent --------------------------
-(* Trace validation for C20.  IOEnv.TRACE_FILE = [names, traces] with
-     trace = [np, gated, solo : <<content hash per process>>, final : listing after all runs, events : <<event>>]
-     event = [p, ev \in {"mk","wr","rd","rm","done"}, name, listing, content, outok]
+(* Trace validation for C20.  IOEnv.TRACE_FILE = [traces] with
+     trace = [np, gated, solo : <<per process: <<content hash of every read-back of a solitary run>> >>,
+              final : listing after all runs, events : <<event>>]
+     event = [p, ev \in {"mk","wr","rd","rm","done","crashed"}, name, listing, content, outok]
    recorded by the audit-hook scheduler at the OS-API boundary of real processes (listing / content are
-   taken while the event is pending, i.e. they describe the state BEFORE the step).  Every event must be
-   an enabled step of Concurrent (unlogged private steps Populate / Ins are composed in), the model's
-   directory must equal the observed listing, every invariant must hold after every step.
+   taken while the event is pending, i.e. they describe the state BEFORE the step).
+   The verdict is the declarative layer's (ConcurrentDecl!DJudge): any protocol that keeps to its own,
+   freshly named files, reads back what a solitary run reads, removes them and produces the solitary
+   output is accepted.  That the present code's protocol (Concurrent.tla: Mk Wr Rd Rm) is such a protocol
+   is MC_Concurrent's invariant DeclAccepts; whether a recorded process followed exactly that protocol is
+   reported as a note by the driver ("protocol drift"), never as a violation.
    Verdicts are total: the first failing clause of a trace is printed and the next trace is judged.      *)
-EXTENDS Concurrent, Json, IOUtils
+EXTENDS ConcurrentDecl, Json, IOUtils
 Data2 == JsonDeserialize(IOEnv.TRACE_FILE)
 Traces == Data2.traces
-\* (substituted constants are re-evaluated at every use: they must not touch the trace file)
-TraceNames == STRING
-TraceProcs == 1..atoi(IOEnv.MAXNP)
-TraceKind == [p \in TraceProcs |-> "gff"]
-ToSet(sq) == {sq[i] : i \in 1..Len(sq)}
-
-InvAll(s) == IsolationS(s) /\ OwnFileOnlyS(s) /\ DistinctNamesS(s) /\ SolitaryResultS(s)
-\* one logged event on state s of trace t: [ok, s, clause]
-StepE(t, s, e) ==
-  LET p == e.p
-      listed == (~t.gated) \/ ToSet(e.listing) = DOMAIN s.tmp
-  IN CASE e.ev = "mk" ->
-            LET s1 == IF GPopulate(s, p) THEN SPopulate(s, p) ELSE s IN
-            IF ~listed THEN [ok |-> FALSE, s |-> s, clause |-> "listing_before_mk"]
-            ELSE IF ~GMk(s1, p, e.name) THEN [ok |-> FALSE, s |-> s, clause |-> "mk_not_enabled_or_name_not_fresh"]
-            ELSE [ok |-> TRUE, s |-> SMk(s1, p, e.name), clause |-> ""]
-       [] e.ev = "wr" ->
-            IF ~GWr(s, p) THEN [ok |-> FALSE, s |-> s, clause |-> "wr_out_of_order"]
-            ELSE IF e.name # s.myTmp[p] THEN [ok |-> FALSE, s |-> s, clause |-> "wr_foreign_file"]
-            ELSE IF ~listed THEN [ok |-> FALSE, s |-> s, clause |-> "listing_before_wr"]
-            ELSE [ok |-> TRUE, s |-> SWr(s, p), clause |-> ""]
-       [] e.ev = "rd" ->
-            IF ~GRd(s, p) THEN [ok |-> FALSE, s |-> s, clause |-> "rd_out_of_order"]
-            ELSE IF e.name # s.myTmp[p] THEN [ok |-> FALSE, s |-> s, clause |-> "rd_foreign_file"]
-            ELSE IF ~listed THEN [ok |-> FALSE, s |-> s, clause |-> "listing_before_rd"]
-            ELSE IF e.content # t.solo[p] THEN [ok |-> FALSE, s |-> s, clause |-> "isolation_content_differs_from_solitary_run"]
-            ELSE [ok |-> TRUE, s |-> SRd(s, p), clause |-> ""]
-       [] e.ev = "rm" ->
-            LET s1 == IF GIns(s, p) THEN SIns(s, p) ELSE s IN
-            IF ~GRm(s1, p) THEN [ok |-> FALSE, s |-> s, clause |-> "rm_out_of_order"]
-            ELSE IF e.name # s.myTmp[p] THEN [ok |-> FALSE, s |-> s, clause |-> "rm_foreign_file"]
-            ELSE IF ~listed THEN [ok |-> FALSE, s |-> s, clause |-> "listing_before_rm"]
-            ELSE [ok |-> TRUE, s |-> SRm(s1, p), clause |-> ""]
-       [] e.ev = "crashed" -> [ok |-> FALSE, s |-> s, clause |-> "process_crashed"]
-       [] e.ev = "done" ->
-            IF s.pc[p] # "done" THEN [ok |-> FALSE, s |-> s, clause |-> "finished_without_removing_its_file"]
-            ELSE IF ~e.outok THEN [ok |-> FALSE, s |-> s, clause |-> "output_differs_from_solitary_run"]
-            ELSE [ok |-> TRUE, s |-> s, clause |-> ""]
-RECURSIVE Walk(_, _, _)
-Walk(t, s, l) ==
-  IF l > Len(t.events)
-  THEN IF ~(\A p \in 1..t.np : s.pc[p] = "done") THEN [l |-> l, clause |-> "not_all_processes_finished"]
-       ELSE IF t.final # <<>> THEN [l |-> l, clause |-> "cleanup_directory_not_empty"]
-       ELSE [l |-> l, clause |-> "ok"]
-  ELSE LET r == StepE(t, s, t.events[l]) IN
-       IF ~r.ok THEN [l |-> l, clause |-> r.clause]
-       ELSE IF ~InvAll(r.s) THEN [l |-> l, clause |-> "invariant_after_step"]
-       ELSE Walk(t, r.s, l + 1)
-\* processes beyond t.np never start: mark them done
-StartState(t) == [S0 EXCEPT !.pc = [p \in TraceProcs |-> IF p <= t.np THEN "start" ELSE "done"],
-                            !.readBack = [p \in TraceProcs |-> IF p <= t.np THEN <<>> ELSE Data(p)],
-                            !.outDb = [p \in TraceProcs |-> IF p <= t.np THEN <<>> ELSE Import(p, Data(p))]]
 VARIABLES i, done
-TInit == i \in 1..Len(Traces) /\ done = FALSE /\ Init
-TNext == /\ ~done /\ done' = TRUE /\ i' = i /\ UNCHANGED vars
-         /\ LET v == Walk(Traces[i], StartState(Traces[i]), 1) IN
+TInit == i \in 1..Len(Traces) /\ done = FALSE
+TNext == /\ ~done /\ done' = TRUE /\ i' = i
+         /\ LET v == DJudge(Traces[i]) IN
             v.clause = "ok" \/ PrintT(ToJson([reject |-> i, at |-> v.l, clause |-> v.clause]))
 =============================================================================
